@@ -4,3 +4,5 @@ import Dashu.Props.GenBitsHeap
 #print axioms Dashu.Props.GenBitsHeap.gen_with_bit_dword_spilled
 #print axioms Dashu.Props.GenBitsHeap.gen_with_bit_large
 #print axioms Dashu.Props.GenBitsHeap.gen_clear_high_bits_large
+#print axioms Dashu.Props.GenBitsHeap.gen_clear_bit_large
+#print axioms Dashu.Props.GenBitsHeap.gen_split_bits_large
